@@ -1668,9 +1668,9 @@ PROPS = {
             "rule": "Join / Join-then-Separate on random body pairs and rational relative poses (every fifth pair with a massless first body); 1-3 setter calls (mass / com / inertia / all) on a movable body without attachments or on a fixed body (on movable, fixed or massless virtual parents), compared with a model built from scratch with the new parameters on InverseDynamics, CRBA, ForwardDynamics, CalcCenterOfMass; distinct = distinct (model shape, setter sequence) + number of body pairs",
             "explanation": "monitor: rigid union from the definitions (parallel-axis theorem about the union's centre of mass); twin comparison setter-model vs rebuilt model on the implementation; correspondence with the Lean Body.join/separate and setter model",
             "assumptions": COMMON_ASSUMPTIONS},
-    "C16": {"gen": gen_C16, "extra_props": ["GenLaws", "GenLaws2"],
+    "C16": {"gen": gen_C16, "extra_props": ["C16From", "GenLaws", "GenLaws2"],
             "rule": "every compact operator of SpatialAlgebraOperators.h / Quaternion.h / rbdl_mathutils on random rational arguments (rational rotations, translations, inertias, unit quaternions incl. rotations by half a turn with trace -1, diagonally dominant shuffled systems for the Gauss solver); distinct = number of (operator, argument) pairs",
-            "explanation": "46 theorems: each compact operator equals its 6x6 matrix definition, composition laws, power invariance, quaternion laws; correspondence: the C++ operator vs the Lean definition on explicit arguments",
+            "explanation": "46 theorems: each compact operator equals its 6x6 matrix definition, composition laws, power invariance, quaternion laws; Props/C16From (16 thms): the four-branch Quaternion::fromMatrix of the source returns a unit quaternion with the same matrix for EVERY rotation, half-turns included (no side condition on the trace; sqrt only assumed to be a square root at the arguments passed); correspondence: the C++ operator vs the Lean definition on explicit arguments",
             "assumptions": COMMON_ASSUMPTIONS},
     "C08": {"gen": gen_C08, "extra_props": ["C08Phys", "C08PhysKkt", "C08Forces"],
             "rule": "random models with contact sets (1-3 orthonormal normals per point, 1-2 points, movable / fixed bodies) and loop constraints placed on the manifold with exact kinematics (classes: predecessor = base; ball (3 translations); rotational axes with the predecessor frame away from the base origin; partial translations / frames separated along free axes), velocities projected exactly on G qdot = 0, Baumgarte on / off (loop groups; contact groups through enableBaumgarteStabilization), external forces; contact points on 2-3 bodies of trees with a forced user-defined joint; methods direct / range-space / null-space x 3 solvers, Kokkevis for contact-only sets",
